@@ -625,3 +625,322 @@ def LiveRel (D : List Nat) (a b : St) : Prop :=
   ∀ z e, e.2.1 ∈ D → (liveAt a z = some e ↔ liveAt b z = some e)
 
 end Sentinel.C14
+
+namespace Sentinel.C14
+open Sentinel.Reuse Sentinel.Drv.C14 Sentinel.LA
+
+/-! ### a reachability invariant: every bound flow rule that needs a statistic has the node it reads -/
+
+/-- the resource whose node a flow rule's statistic is taken from -/
+def ruleTgt (r : FlowRule) : Nat := if r.rel = 1 then r.ref else r.res
+
+def NodesThere (s : St) : Prop :=
+  ∀ y, ∀ c ∈ s.flow.ctls y, c.rule.needStat = true → (nodeAt s (ruleTgt c.rule)).isSome
+
+theorem throttleCheck_rule (now : Nat) (c : Ctl FlowRule FlowSt) : (throttleCheck now c).2.rule = c.rule := by
+  unfold throttleCheck
+  simp only []
+  split_ifs <;> rfl
+
+theorem throttleCheckF_rule (now : Nat) (thr : Float) (c : Ctl FlowRule FlowSt) : (throttleCheckF now thr c).2.rule = c.rule := by
+  unfold throttleCheckF
+  simp only []
+  split_ifs <;> rfl
+
+theorem warmUpAllowed_rule (now : Nat) (p : Float) (c : Ctl FlowRule FlowSt) : (warmUpAllowed now p c).2.rule = c.rule := by
+  unfold warmUpAllowed
+  simp only []
+
+theorem flowCheckOne_rule (now : Nat) (mem : Int) (sum : Nat) (p : Float) (c : Ctl FlowRule FlowSt) :
+    (flowCheckOne now mem sum p c).2.rule = c.rule := by
+  unfold flowCheckOne
+  simp only []
+  split_ifs <;> first
+    | rfl
+    | exact throttleCheck_rule ..
+    | exact throttleCheckF_rule ..
+    | (rw [throttleCheckF_rule]; exact warmUpAllowed_rule ..)
+    | exact warmUpAllowed_rule ..
+
+theorem flowScan_rules (now : Nat) (mem : Int) (rd : Ctl FlowRule FlowSt → Nat × Float) (cs : List (Ctl FlowRule FlowSt)) :
+    (flowScan now mem rd cs).2.2.map (·.rule) = cs.map (·.rule) := by
+  induction cs with
+  | nil => rfl
+  | cons c cs ih =>
+    unfold flowScan
+    have hst := flowCheckOne_rule now mem (rd c).1 (rd c).2 c
+    rcases hres : flowCheckOne now mem (rd c).1 (rd c).2 c with ⟨v, c'⟩
+    rw [hres] at hst
+    have ht : c'.rule = c.rule := hst
+    cases v <;> simp [ht, ih]
+
+theorem flowRecordPass_rule (now : Nat) (c : Ctl FlowRule FlowSt) : (flowRecordPass now c).rule = c.rule := by
+  unfold flowRecordPass
+  cases hs : c.st.stat <;> simp [hs]
+
+theorem checks_f_rules (now : Nat) (mem : Int) (rd : Ctl FlowRule FlowSt → Nat × Float) (node : Arr Nat)
+    (fcs : List (Ctl FlowRule FlowSt)) (hcs : List (Ctl HotRule HotSt)) (ccs : List (Ctl CbRule CbSt)) (q : Req) :
+    (checks now mem rd node fcs hcs ccs q).f.map (·.rule) = fcs.map (·.rule) := by
+  have hscan := flowScan_rules now mem rd fcs
+  unfold checks
+  rcases hF : flowScan now mem rd fcs with ⟨fb, w, fcs'⟩
+  rw [hF] at hscan
+  simp only [] at hscan ⊢
+  cases fb with
+  | some id => exact hscan
+  | none =>
+    simp only []
+    rcases hotScan now q hcs with ⟨hb, hw, hcs'⟩
+    cases hb with
+    | some id => exact hscan
+    | none =>
+      simp only []
+      rcases cbCheck now ccs with ⟨cbb, ccs'⟩
+      cases cbb with
+      | some id => exact hscan
+      | none =>
+        simp only [List.map_map]
+        rw [← hscan]
+        congr 1
+        funext c
+        exact flowRecordPass_rule now c
+
+/-- a step that keeps the bound flow rules of every resource (as lists) and only adds nodes keeps the invariant -/
+theorem nodesThere_of (s s' : St) (h : NodesThere s)
+    (hr : ∀ y, (s'.flow.ctls y).map (·.rule) = (s.flow.ctls y).map (·.rule))
+    (hn : ∀ z, (nodeAt s z).isSome → (nodeAt s' z).isSome) : NodesThere s' := by
+  intro y c hc hneed
+  have hm : c.rule ∈ (s'.flow.ctls y).map (·.rule) := List.mem_map_of_mem hc
+  rw [hr y] at hm
+  obtain ⟨c0, hc0, he⟩ := List.mem_map.mp hm
+  rw [← he] at hneed ⊢
+  exact hn _ (h y c0 hc0 hneed)
+
+theorem nodesThere_enterChecks (s : St) (y : Nat) (q : Req) (h : NodesThere s) : NodesThere (enterChecks s y q).1 := by
+  obtain ⟨_, hw⟩ := enterChecks_spec s y q
+  refine nodesThere_of s _ h ?_ ?_
+  · intro z
+    rw [hw.flow z]
+    split_ifs with hz
+    · subst hz; unfold checksOf; exact checks_f_rules ..
+    · rfl
+  · intro z hz
+    rw [hw.node z]
+    split_ifs
+    · rfl
+    · exact hz
+
+theorem nodesThere_entry (s : St) (y : Nat) (err : Bool) (q : Req) (rt : Nat) (h : NodesThere s) :
+    NodesThere (entry s y err q rt).1 := by
+  have h1 := nodesThere_enterChecks s y q h
+  unfold entry
+  rcases hE : enterChecks s y q with ⟨s1, b, w⟩
+  rw [hE] at h1
+  cases b with
+  | some t => exact h1
+  | none => exact h1
+
+theorem nodesThere_enterLive (s : St) (hd y : Nat) (q : Req) (h : NodesThere s) : NodesThere (enterLive s hd y q).1 := by
+  have h1 := nodesThere_enterChecks s y q h
+  unfold enterLive
+  rcases hE : enterChecks s y q with ⟨s1, b, w⟩
+  rw [hE] at h1
+  cases b with
+  | some t => exact h1
+  | none => exact h1
+
+theorem nodesThere_exitLive (s : St) (hd : Nat) (err : Bool) (h : NodesThere s) : NodesThere (exitLive s hd err).1 := by
+  unfold exitLive
+  split
+  · exact h
+  · exact h
+
+end Sentinel.C14
+
+namespace Sentinel.C14
+open Sentinel.Reuse Sentinel.Drv.C14 Sentinel.LA
+
+/-- every controller a build returns is an old one or is bound to (the normalised form of) a rule of the new list -/
+theorem build_mem {R S : Type} (K : Calc R S) (now : Nat) (new : List R) (old : List (Ctl R S)) (next : Nat)
+    (c : Ctl R S) (hc : c ∈ build K now new old next) : c ∈ old ∨ ∃ r ∈ new, c.rule = K.norm r := by
+  induction new generalizing old next with
+  | nil => simp [build] at hc
+  | cons r rs ih =>
+    have lift : ∀ (old' : List (Ctl R S)) (nx : Nat), (∀ x ∈ old', x ∈ old) → c ∈ build K now rs old' nx →
+        c ∈ old ∨ ∃ r' ∈ r :: rs, c.rule = K.norm r' := by
+      intro old' nx hsub hm
+      rcases ih old' nx hm with h | ⟨r', hr', he⟩
+      · exact Or.inl (hsub _ h)
+      · exact Or.inr ⟨r', List.mem_cons_of_mem _ hr', he⟩
+    have herase : ∀ i, ∀ x ∈ old.eraseIdx i, x ∈ old := fun i x hx => (List.eraseIdx_sublist old i).subset hx
+    rw [build] at hc
+    rcases hres : reuseIdx K r old 0 none with ⟨a, b⟩
+    rw [hres] at hc
+    cases a with
+    | some i =>
+      simp only [] at hc
+      rcases hg : old[i]? with _ | d
+      · rw [hg] at hc; exact lift old next (fun _ h => h) hc
+      · rw [hg] at hc
+        simp only [List.mem_cons] at hc
+        rcases hc with rfl | hc
+        · exact Or.inl (List.mem_of_getElem? hg)
+        · exact lift _ next (herase i) hc
+    | none =>
+      cases b with
+      | some j =>
+        simp only [] at hc
+        rcases hg : old[j]? with _ | d
+        · rw [hg] at hc; exact lift old next (fun _ h => h) hc
+        · rw [hg] at hc
+          simp only [List.mem_cons] at hc
+          rcases hc with rfl | hc
+          · exact Or.inr ⟨r, List.mem_cons_self .., rfl⟩
+          · exact lift _ (next+1) (herase j) hc
+      | none =>
+        simp only [List.mem_cons] at hc
+        rcases hc with rfl | hc
+        · exact Or.inr ⟨r, List.mem_cons_self .., rfl⟩
+        · exact lift old (next+1) (fun _ h => h) hc
+
+theorem foldl_nodes_mono (now z : Nat) (ts : List Nat) (ns : List (Nat × Arr Nat)) (h : (ns.find? (·.1 == z)).isSome) :
+    ((ts.foldl (fun ns y => if ns.any (·.1 == y) then ns else (y, LA.mk 20 500 now) :: ns) ns).find? (·.1 == z)).isSome := by
+  rw [find_foldl_nodes now z ts ns (Or.inl h)]; exact h
+
+theorem foldl_nodes_creates (now z : Nat) (ts : List Nat) (ns : List (Nat × Arr Nat)) (hz : z ∈ ts) :
+    ((ts.foldl (fun ns y => if ns.any (·.1 == y) then ns else (y, LA.mk 20 500 now) :: ns) ns).find? (·.1 == z)).isSome := by
+  induction ts generalizing ns with
+  | nil => simp at hz
+  | cons y ts ih =>
+    simp only [List.foldl_cons]
+    rcases List.mem_cons.mp hz with rfl | hz'
+    · apply foldl_nodes_mono
+      by_cases hany : ns.any (·.1 == z) = true
+      · simp only [hany, if_true]
+        rw [List.any_eq_true] at hany
+        obtain ⟨a, ha, hp⟩ := hany
+        rw [List.find?_isSome]
+        exact ⟨a, ha, hp⟩
+      · simp [hany]
+    · exact ih _ hz'
+
+theorem norm_needStat (r : FlowRule) : (FlowRule.norm r).needStat = r.needStat := by
+  unfold FlowRule.norm FlowRule.needStat; split_ifs <;> rfl
+
+theorem norm_tgt (r : FlowRule) : ruleTgt (FlowRule.norm r) = ruleTgt r := by
+  unfold FlowRule.norm ruleTgt; split_ifs <;> rfl
+
+theorem mem_rulesOf {R : Type} (valid : R → Bool) (res : R → Nat) (x : Nat) (rules : List R) (r : R)
+    (h : r ∈ rulesOf valid res x rules) : r ∈ rules ∧ valid r = true ∧ res r = x := by
+  unfold rulesOf at h
+  simp only [List.mem_filter, Bool.and_eq_true, beq_iff_eq] at h
+  exact ⟨h.1, h.2.1, h.2.2⟩
+
+/-- a flow load (any list, either path) re-establishes the invariant -/
+theorem nodesThere_flowLoad (s : St) (only : Option Nat) (rules : List FlowRule) (h : NodesThere s) (s' : St)
+    (hf : s'.flow = (match only with
+      | none => s.flow.loadRules flowCalc FlowRule.valid (·.res) s.now rules
+      | some x => s.flow.loadRulesOfResource flowCalc FlowRule.valid (·.res) s.now x rules))
+    (hn : s'.nodes = (flowTargets rules only).foldl
+      (fun ns y => if ns.any (·.1 == y) then ns else (y, LA.mk 20 500 s.now) :: ns) s.nodes) : NodesThere s' := by
+  have hmono : ∀ z, (nodeAt s z).isSome → (nodeAt s' z).isSome := by
+    intro z hz; simp only [nodeAt, hn]; exact foldl_nodes_mono s.now z _ _ hz
+  have hbuilt : ∀ y, (only = none ∨ only = some y) → ∀ c ∈ build flowCalc s.now (rulesOf FlowRule.valid (·.res) y rules) (s.flow.ctls y) s.flow.next,
+      c.rule.needStat = true → (nodeAt s' (ruleTgt c.rule)).isSome := by
+    intro y hy c hc hneed
+    rcases build_mem flowCalc s.now _ _ _ c hc with hold | ⟨r, hr, he⟩
+    · exact hmono _ (h y c hold hneed)
+    · obtain ⟨hrm, hv, hres⟩ := mem_rulesOf _ _ _ _ _ hr
+      have he' : c.rule = FlowRule.norm r := he
+      rw [he', norm_needStat] at hneed
+      rw [he', norm_tgt]
+      simp only [nodeAt, hn]
+      apply foldl_nodes_creates
+      unfold flowTargets
+      refine List.mem_map.mpr ⟨r, ?_, rfl⟩
+      simp only [List.mem_filter, Bool.and_eq_true, Bool.or_eq_true, beq_iff_eq]
+      refine ⟨hrm, ⟨hv, hneed⟩, ?_⟩
+      rcases hy with hy | hy
+      · left; rw [hy]; rfl
+      · right; rw [hy, hres]
+  intro y c hc hneed
+  rw [hf] at hc
+  cases only with
+  | none => exact hbuilt y (Or.inl rfl) c hc hneed
+  | some x =>
+    simp only [Mgr.loadRulesOfResource] at hc
+    split_ifs at hc with hyx
+    · subst hyx; exact hbuilt y (Or.inr rfl) c hc hneed
+    · exact hmono _ (h y c hc hneed)
+
+theorem nodesThere_doLoad (s : St) (modl : String) (re : Bool) (only : Option Nat) (arg : String) (h : NodesThere s) :
+    NodesThere (doLoad false s modl re only arg).1 := by
+  have keep : ∀ s' : St, s'.flow = s.flow → s'.nodes = s.nodes → NodesThere s' := by
+    intro s' hf hn y c hc hneed
+    rw [hf] at hc
+    simp only [nodeAt, hn]
+    exact h y c hc hneed
+  unfold doLoad
+  simp only [Bool.false_and, Bool.false_eq_true, if_false]
+  by_cases hcb : (modl == "cb") = true
+  · simp only [hcb, if_true]
+    cases re <;> (split <;> (try (split_ifs)) <;> exact keep _ rfl rfl)
+  · simp only [hcb, Bool.false_eq_true, if_false]
+    by_cases hfl : (modl == "flow") = true
+    · simp only [hfl, if_true]
+      cases hp : parseList parseFlow arg with
+      | none => cases re <;> exact keep _ rfl rfl
+      | some rules =>
+        simp only []
+        split_ifs
+        all_goals first
+          | exact keep _ rfl rfl
+          | exact nodesThere_flowLoad _ only rules (keep _ rfl rfl) _ rfl rfl
+    · simp only [hfl, Bool.false_eq_true, if_false]
+      cases re <;> (split_ifs <;> (try (split <;> (try (split_ifs)))) <;> exact keep _ rfl rfl)
+
+theorem forall2_mem_right {α β : Type} {P : α → β → Prop} {l1 : List α} {l2 : List β} (h : List.Forall₂ P l1 l2)
+    (b : β) (hb : b ∈ l2) : ∃ a ∈ l1, P a b := by
+  induction h with
+  | nil => simp at hb
+  | @cons a b' as bs hab _ ih =>
+    rcases List.mem_cons.mp hb with rfl | hm
+    · exact ⟨a, List.mem_cons_self .., hab⟩
+    · obtain ⟨a', ha', hp⟩ := ih hm
+      exact ⟨a', List.mem_cons_of_mem _ ha', hp⟩
+
+/-- with the invariant, an unchanged flow reload whose rules do not read the statistic of `D` from outside `D` never has to
+    create a node for a resource of `D` -/
+theorem flow_nodes_present (D : List Nat) (s : St) (only : Option Nat) (rules : List FlowRule) (h : NodesThere s)
+    (hu : UnchangedFor flowCalc FlowRule.valid (·.res) D s.flow only rules)
+    (hin : ∀ r ∈ rules, ruleTgt r ∈ D → r.res ∈ D) :
+    ∀ z ∈ D, (nodeAt s z).isSome ∨ z ∉ flowTargets rules only := by
+  intro z hz
+  by_cases hzt : z ∈ flowTargets rules only
+  · left
+    unfold flowTargets at hzt
+    obtain ⟨r, hr, he⟩ := List.mem_map.mp hzt
+    simp only [List.mem_filter, Bool.and_eq_true, Bool.or_eq_true, beq_iff_eq] at hr
+    obtain ⟨hrm, ⟨hv, hneed⟩, honly⟩ := hr
+    have het : ruleTgt r = z := he
+    have hres : r.res ∈ D := hin r hrm (het ▸ hz)
+    have htouch : only = none ∨ only = some r.res := by
+      rcases honly with ho | ho
+      · left; cases only <;> simp_all
+      · right; exact ho
+    have hf := hu r.res hres htouch
+    have hmem : r ∈ rulesOf FlowRule.valid (·.res) r.res rules := by
+      unfold rulesOf; simp [hrm, hv]
+    -- the bound controller of `r`
+    obtain ⟨c, hc, heq⟩ := forall2_mem_right hf r hmem
+    simp only [flowCalc, FlowRule.eq, Bool.and_eq_true, beq_iff_eq] at heq
+    obtain ⟨⟨⟨⟨⟨⟨⟨⟨⟨⟨⟨⟨⟨e1, e2⟩, e3⟩, e4⟩, e5⟩, e6⟩, _⟩, _⟩, _⟩, _⟩, _⟩, _⟩, _⟩, _⟩ := heq
+    have hn : c.rule.needStat = true := by
+      unfold FlowRule.needStat at hneed ⊢; rw [e5, e6]; exact hneed
+    have ht : ruleTgt c.rule = z := by
+      rw [← het]; unfold ruleTgt; rw [e1, e2, e3]
+    rw [← ht]
+    exact h r.res c hc hn
+  · right; exact hzt
+
+end Sentinel.C14
